@@ -42,9 +42,10 @@ def plan(prop, tier):
     q = tier == "quick"
     P = {
         "C01": [("region", {"C01"}, "any", "release",
-                 [corpus("fixed_findings.ndjson"), corpus("hand.ndjson"),
+                 [corpus("big27.ndjson"), corpus("fixed_findings.ndjson"), corpus("hand.ndjson"),
                   ops("single", ALLF, 480 if q else 4000, 3 if q else 4, 120 if q else 160),
-                  ops("single", "lat,frames,lat,fan", 600 if q else 6000, 3, 120),   # general slopes, boxes overlapping only a little, thinnest wedges
+                  ops("single", "lat,frames,lat,fan,tfan", 600 if q else 6000, 3, 120),   # general slopes, boxes overlapping only a little, thinnest wedges
+                  ops("single", "bigfan23,bigsliver25,bigfan25,bigsliver20", 200 if q else 2000, 3, 120),   # beyond 2^12 (differences <= 2^25, see DESIGN N5): touch-only operands, arithmetic-free laws
                   tri(2, 840, 3 if q else 1, 0)] + ([] if q else [ops("single", EXACT, 600, 6, 260)]))],
         "C02": [("nesting", {"C02"}, "any", "release",
                  [corpus("fixed_findings.ndjson"), corpus("hand.ndjson"),
@@ -56,6 +57,7 @@ def plan(prop, tier):
                   ops("single", ALLF, 600 if q else 5000, 3 if q else 4, 120 if q else 160),
                   ops("deg", EXACT, 40 if q else 200),
                   ops("single", "rectw", 700 if q else 6000, 4, 160), ops("five", "rectw", 60 if q else 600, 3, 120),
+                  ops("single", "tfan,fan,lat", 300 if q else 3000, 3, 120),
                   tri(2, 840, 3 if q else 1, 2)])],
         "C05": [("partition", {"C05"}, "any", "release",
                  [ops("five", ALLF, 300 if q else 3000, 3 if q else 4, 100 if q else 140)])],
@@ -64,16 +66,19 @@ def plan(prop, tier):
                   ops("far", ALLF, 120 if q else 1000, 3, 100),
                   ops("deg", EXACT, 60 if q else 300)])],
         "C07": [("representation", {"C07"}, "any", "release",
-                 [ops("repr", ALLF, 120 if q else 1200, 3 if q else 4, 90 if q else 130)])],
+                 [ops("repr", ALLF, 120 if q else 1200, 3 if q else 4, 90 if q else 130),
+                  ops("repr", "bigsliver25,bigfan25,bigsliver20", 90 if q else 900, 3, 90),
+                  ops("repr32", "bigsliver20,bigsliver14,bigfan22,bigsliver23", 120 if q else 1200, 3, 90)])],
         "C08": [("transforms", {"C08"}, "any", "release",
                  [ops("xform", ALLF, 200 if q else 2000, 3 if q else 4, 100 if q else 140)])],
         "C09": [("farparts", {"C09"}, "any", "release",
                  [ops("far", ALLF, 250 if q else 2500, 3 if q else 4, 100 if q else 140), ops("far", "lat,lat,frames", 300 if q else 3000, 3, 100)])],
         "C10": [("f32-agrees", {"C10"}, "any", "release",
                  [corpus("fan_f32.ndjson"), ops("f32", ALLF, 250 if q else 2500, 3 if q else 4, 100 if q else 140),
-                  ops("f32", "fan", 250 if q else 2500, 3, 100)]),
+                  ops("f32", "fan", 250 if q else 2500, 3, 100), ops("f32", "bigfan23,bigfan24,bigfan20", 400 if q else 4000, 3, 100)]),
                 ("f32-guarantees", {"C01", "C02", "C03", "C04", "C05", "C06"}, "f32", "release",
-                 [corpus("fan_f32.ndjson"), ops("f32", ALLF, 150 if q else 1200, 3, 100), ops("f32", "fan", 150 if q else 1500, 3, 100)])],
+                 [corpus("fan_f32.ndjson"), ops("f32", ALLF, 150 if q else 1200, 3, 100), ops("f32", "fan", 150 if q else 1500, 3, 100),
+                  ops("f32", "bigfan23,bigfan24", 200 if q else 2000, 3, 100)])],
         "C11": [("chains", {"C11", "C03", "C02"}, "any", "release",
                  [ops("chain", EXACT, 120 if q else 1000, 3, 90), ops("chain3", EXACT, 40 if q else 500, 2, 60),
                   ops("chain", "frames,cxabut,cxsub,frames,rect", 500 if q else 5000, 3, 90), ops("chain3", "frames,cxabut", 120 if q else 1200, 3, 70)])],
